@@ -161,7 +161,7 @@ def program(draw, n=None, min_n=2, max_n=6, depth=2, max_ops=8, lossy=True,
                 vis = child["n"]
             m = draw(st.integers(0, n - vis))
             group = draw(st.booleans())
-            name = draw(st.sampled_from([None, None, "sub", "x"]))
+            name = draw(st.sampled_from([None, None, "sub", "x", "", "ab", "a long name for a small box", "θ"]))
             ops.append(["add", child, m, group, name])
             if has_any_herald(child):
                 heralded = True
